@@ -36,6 +36,15 @@ def main():
         except Exception as e:
             acc.append('EXC ' + type(e).__name__)
     out['acceptance'] = acc
+    if 'save_metadata_to' in order:
+        # metadata handed over ASCII-escaped; saved by THIS process (whose locale may not be UTF-8)
+        for k, v in order['metadata'].items():
+            o.save_meta(k, v)
+        try:
+            o.save_metadata(order['save_metadata_to'])
+            out['metadata_saved'] = True
+        except Exception as e:
+            out['metadata_saved'] = 'EXC %s: %s' % (type(e).__name__, str(e)[:100])
     sys.stdout.write('RESULT ' + json.dumps(out) + '\n')
 
 
